@@ -84,6 +84,9 @@ def main(argv=None):
         return 3
     for m in mods:
         importlib.import_module("contracts." + os.path.basename(m)[:-3])
+    for m in list(sys.modules.values()):
+        if getattr(m, "__name__", "").startswith("contracts.") and hasattr(m, "configure"):
+            m.configure(env)  # (e.g. the property that VERIFIES a function removes the model other properties use for it)
     for s in api.SPECS.values():
         env.spec_decl(s)
     # symbolic-only helper names used by contracts (e.g. the SRP model symbols)
